@@ -13,7 +13,7 @@ FAMILIES = {
     "velocity": ["cm/s", "km/s"],
     "density": ["g/cm**3", "kg/m**3", "M_sun/pc**3"],
     "energy": ["erg", "J"],
-    "dimensionless": ["dimensionless"],
+    "dimensionless": ["dimensionless", "percent", "ppm", "rad", "deg", "cm/m"],
     "temperature": ["K"],
     # electromagnetic units: Gaussian-cgs and SI ones are different dimensions and must never be inter-converted
     "magnetic_gaussian": ["G", "mG"],
@@ -29,7 +29,7 @@ FAMILIES_QUICK = {
     "velocity": ["cm/s", "km/s"],
     "density": ["g/cm**3", "M_sun/pc**3"],
     "energy": ["erg", "J"],
-    "dimensionless": ["dimensionless"],
+    "dimensionless": ["dimensionless", "percent", "deg", "cm/m"],
     "temperature": ["K"],
     # electromagnetic units: Gaussian-cgs and SI ones are different dimensions and must never be inter-converted
     "magnetic_gaussian": ["G", "mG"],
